@@ -149,6 +149,15 @@ where
     }
 }
 
+#[cfg(p2panda_p2panda_verif)]
+impl<T, ID> Task<T, ID> {
+    /// Verification-only: takes the lock around the result slot and hands out the guard, so that a
+    /// harness can stand in for another waiter which is just reading the result.
+    pub async fn verif_lock_result(&self) -> tokio::sync::OwnedMutexGuard<Option<T>> {
+        self.ready_result.clone().lock_owned().await
+    }
+}
+
 /// Verification-only schedule points (compiled only with `--cfg p2panda_p2panda_verif`).
 ///
 /// A harness can install a callback which is invoked at labelled points inside the task tracker;
